@@ -18,7 +18,7 @@ const c07ver = 1
 var c07Paths = []string{"a/go", "b/go", "go", "x/b", "ab", "a/b", "a/b/c", "a.b/c", "a-b/c", "ab/c",
 	"k8s.io/api/core/v1", "k8s.io/apimachinery/pkg/apis/meta/v1", "v1", "x/v1", "c/2fa", "2fa", "x/y~z", "x/yz",
 	"m/pkg", "p/_", "q/struct", "r/struct", "local/out", "other/out", "out", "t/a_b", "t/ab", "u/type", "net/http", "x/http",
-	"w/b2", "b/2", "x/b+", "z/-"}
+	"w/b2", "b/2", "x/b+", "z/-", "a/init", "init", "in/it", "i/n/it", "x/in_it"}
 var c07Small = []string{"a/go", "b/go", "x/b", "ab", "a/b", "a.b", "x/v1", "v1", "c/2fa", "local/out", "q/out", "p/_"}
 var c07Locals = []string{"", "local/out", "x/v1", "a/b", "go", "o/ab2", "q/ab3", "r/b2"}
 var c07Cluster = []string{"x/b", "ab", "a/b", "a.b", "a-b", "a_b", "b", "y/b", "w/b2"}
@@ -188,6 +188,11 @@ func c07options(g *Gen) {
 				ops = append(ops, op{kind: "sym", pkg: pkg})
 			}
 		}
+		if i%5 == 1 {
+			// a directory called init: no package can be imported under that name ("init must be a func")
+			ops = append([]op{{kind: "sym", pkg: g.Pick([]string{"a/init", "init", "x/in_it"})}}, ops...)
+			cls["path-ending-in-init"] = true
+		}
 		if i%4 == 2 {
 			// package-less names that are not builtins (an unnamed composite type such as []string has Name.Package
 			// "", so has a symbol like len): they are nobody's import, whatever the output package is
@@ -290,7 +295,7 @@ func c07options(g *Gen) {
 					problems = append(problems, "no local name for "+kk)
 				case a != first[kk]:
 					problems = append(problems, fmt.Sprintf("the local name of %s changed from %q to %q", kk, first[kk], a))
-				case !token.IsIdentifier(a) || token.IsKeyword(a):
+				case !token.IsIdentifier(a) || token.IsKeyword(a) || a == "init":
 					problems = append(problems, fmt.Sprintf("local name %q of %s is not a legal non-keyword identifier", a, kk))
 				}
 				if reserved[a] {
@@ -351,7 +356,7 @@ func c07unicode(g *Gen) {
 					problems = append(problems, "no local name for "+kk)
 				case a != first[kk]:
 					problems = append(problems, fmt.Sprintf("the local name of %s changed from %q to %q", kk, first[kk], a))
-				case !token.IsIdentifier(a) || token.IsKeyword(a):
+				case !token.IsIdentifier(a) || token.IsKeyword(a) || a == "init":
 					problems = append(problems, fmt.Sprintf("local name %q of %s is not a legal non-keyword identifier", a, kk))
 				}
 				if other, dup := seen[a]; dup {
